@@ -119,6 +119,20 @@ def check_events(res, prop, tag, pname, events, expected_sites, optional_sites, 
             left.append((n, ps, val))
         else:
             opt.pop(hit)
+    # a hidden site whose parameters depend on OTHER hidden draws cannot be predicted from the visible
+    # choices: such leftovers are accepted by distribution name, at most once per hidden site
+    still = []
+    for n, ps, val in left:
+        hit = None
+        for j, s in enumerate(opt):
+            if R.DISTS[s.dist].event_name == n:
+                hit = j
+                break
+        if hit is None:
+            still.append((n, ps, val))
+        else:
+            opt.pop(hit)
+    left = still
     if missing or left:
         res.violate(
             prop,
